@@ -446,6 +446,45 @@ def Accepted.galoisTrace (a : Accepted) (l : Nat) : List Nat :=
   let rots := (List.range (a.logN - 1 - l)).map fun j => a.galoisElement (2 ^ (l + j) : Nat)
   if l = 0 then rots ++ [a.galoisConj] else rots
 
+/-! ### level-dependent accessors of core/rlwe/params.go -/
+
+def maxList (l : List Nat) : Nat := l.foldl max 0
+
+/-- `floor(2^64 / max(l))`: how many residues modulo the moduli of `l` can be added in a `uint64`
+    before it can wrap. The code computes `math.MaxUint64 / max`, which is the same for a modulus
+    that does not divide `2^64` (every odd modulus > 1). -/
+def overflowMargin (l : List Nat) : Nat := (W - 1) / maxList l
+
+/-- `QiOverflowMargin(level)`: margin of `Q[:level+1]` (the maximum, not the prime of the level) -/
+def Accepted.qiOverflowMargin (a : Accepted) (level : Nat) : Int :=
+  if a.q.isEmpty then -1 else (overflowMargin (a.q.take (level + 1)) : Int)
+
+/-- `PiOverflowMargin(level)`; `-1` without P or at level `-1` -/
+def Accepted.piOverflowMargin (a : Accepted) (level : Int) : Int :=
+  if a.p.isEmpty || level < 0 then -1 else (overflowMargin (a.p.take (level.toNat + 1)) : Int)
+
+/-- `BaseRNSDecompositionVectorSize(levelQ, levelP) = ceil((levelQ+1)/(levelP+1))`, `levelQ+1` without P -/
+def baseRNSDecompositionVectorSize (levelQ : Nat) (levelP : Int) : Nat :=
+  if levelP = -1 then levelQ + 1 else (levelQ + levelP.toNat + 1) / (levelP.toNat + 1)
+
+/-- `BaseTwoDecompositionVectorSize(levelQ, levelP, w)`: digits of base `2^w` per prime of Q,
+    `ceil(bitlen(q_i)/w)`; all 1 when `w = 0` or a P of two or more primes is in use. -/
+def Accepted.baseTwoDecompositionVectorSize (a : Accepted) (levelP : Int) (w : Nat) : List Nat :=
+  if w = 0 || levelP > 0 then a.q.map (fun _ => 1) else a.q.map (fun q => (len64 q + w - 1) / w)
+
+/-- `MaxBit(levelQ, levelP)` -/
+def Accepted.maxBit (a : Accepted) (levelQ : Nat) (levelP : Int) : Nat :=
+  let mq := maxList ((a.q.take (levelQ + 1)).map len64)
+  if a.p.isEmpty || levelP < 0 then mq else max mq (maxList ((a.p.take (levelP.toNat + 1)).map len64))
+
+/-- `round(log2 q)` in exact arithmetic (`LogQi`, `LogPi`): the `S` with `2^(2S-1) < q² < 2^(2S+1)` -/
+def roundLog2 (q : Nat) : Nat :=
+  let b := len64 q
+  if q * q > 2 ^ (2 * b - 1) then b else b - 1
+
+/-- `LogQLvl(level)`: bit length of `Q[0]·…·Q[level]` (ckks) -/
+def Accepted.logQLvl (a : Accepted) (level : Nat) : Nat := len64 ((a.q.take (level + 1)).foldl (· * ·) 1)
+
 /-! ### CKKS -/
 def Accepted.ckksMaxSlots (a : Accepted) : Nat := if a.ringType = 0 then a.n / 2 else a.n
 def Accepted.ckksLogMaxSlots (a : Accepted) : Nat := if a.ringType = 0 then a.logN - 1 else a.logN
